@@ -1,4 +1,5 @@
 import SieveModel.Lemmas.ClientRead
+import SieveModel.Generated.MsConsts
 import SieveModel.Lemmas.Session
 /-!
 # C05 — ManageSieve replies are read identically however the bytes are segmented
@@ -90,6 +91,11 @@ theorem connected_session_independent_of_segmentation (c : Client) (env : ConnEn
     (runOps (connect c env n1 login password authz false mech).2 ops).1 =
       (runOps (connect c env n2 login password authz false mech).2 ops).1 :=
   connect_then_session_congr c env n1 n2 hs hl login password authz mech ops
+
+/-- the constants of the reader regenerated from the code are the modelled ones: the line terminator and the size asked of
+    every `recv` while looking for a line end -/
+theorem reader_constants_are_the_modelled_ones :
+    Generated.crlf = Reader.CRLF.map (·.toNat) ∧ Generated.readSize = Reader.readSize := by decide
 
 /-- non-vacuity: a literal delivered one byte at a time is read whole and the status line after it
     is still there for the reader -/
